@@ -91,6 +91,7 @@ pub fn run(cfg: &RunCfg) -> Report {
 					api: Api::GuardUnlock,
 					lent: false,
 					panic: false,
+					unwind: false,
 				};
 				tc.outcomes.clear();
 				tc.run_acq(&again);
@@ -118,6 +119,7 @@ pub fn run(cfg: &RunCfg) -> Report {
 		});
 		rep.evaluations += 1;
 		rep.count("raw_ops", out.stats.raw_ops);
+		rep.count("acquisitions_made_during_an_unwind", out.tstats.in_unwind);
 		rep.count("failed_raw_tries", out.stats.failed_tries);
 		rep.count("blocked_then_phantom_released", out.stats.phantom_autorelease);
 		rep.count("acquisitions", out.tstats.acquisitions);
@@ -177,6 +179,6 @@ pub fn run(cfg: &RunCfg) -> Report {
 			});
 		}
 	});
-	rep.rule = "random single-thread sequences (length 2..12) over the acquire/release vocabulary {lock, try, scoped, scoped_try} x {read, write} x {guard drop, unlock} x {owned, lent key} x {single lock, poisonable, owned/boxed/retrying units, boxed/ref/retrying collections, nested, poisonable-wrapped} with a fresh random pattern of phantom holders before every step (phantoms release when blocked upon) and panicking sections; after every step the same locks are re-acquired at once; a sequence is non-trivial iff at least one step met contention (failed raw try or blocked acquire); distinct = distinct (sequence, hold pattern seed)".into();
+	rep.rule = "random single-thread sequences (length 2..12) over the acquire/release vocabulary {lock, try, scoped, scoped_try} x {read, write} x {guard drop, unlock} x {owned, lent key} x {single lock, poisonable, owned/boxed/retrying units, boxed/ref/retrying collections, nested, poisonable-wrapped} with a fresh random pattern of phantom holders before every step (phantoms release when blocked upon) and panicking sections; after every step the same locks are re-acquired at once; a sequence is non-trivial iff at least one step met contention (failed raw try or blocked acquire); distinct = distinct (sequence, hold pattern seed); one acquisition in eight is made from a destructor during an unrelated unwind".into();
 	rep
 }
